@@ -397,16 +397,38 @@ def run_dispatch(case):
         flags = FlagParser.initialize(threadless=True, local_executor=0, num_workers=nw)
         flags.unix_socket_path = '/tmp/verif-c17.sock' if unix else None
         pipes = [MemPipe() for _ in range(nw)]
+        held = []                  # indices of the per-worker locks held right now
+        class RecLock:
+            """stands for the multiprocessing.Lock guarding one worker's pipe; records who holds it"""
+            def __init__(self, k):
+                self.k = k
+            def acquire(self, *a, **kw):
+                held.append(self.k); return True
+            def release(self):
+                held.remove(self.k)
+            def __enter__(self):
+                self.acquire(); return self
+            def __exit__(self, *a):
+                self.release(); return False
+        writes = []                # (pipe index, kind of message, locks held while it was written)
+        for k_, p_ in enumerate(pipes):
+            def send(obj, p_=p_, k_=k_):
+                writes.append((k_, 'obj', tuple(held)))
+                p_.q.append(('obj', obj))
+            p_.send = send
         acc = Acceptor(idd=idd, fd_queue=mock.MagicMock(), flags=flags, lock=multiprocessing.Lock(),
                        executor_queues=pipes, executor_pids=list(range(100, 100 + nw)),
-                       executor_locks=[multiprocessing.Lock() for _ in range(nw)])
+                       executor_locks=[RecLock(k) for k in range(nw)])
         class SyncThread:
             def __init__(self, target=None, args=(), kwargs=None):
                 self.target, self.args, self.kwargs = target, args, kwargs or {}
                 self.ident = 1
             def start(self):
                 self.target(*self.args, **self.kwargs)
+        pid_of = []                # (pipe index, pid given to send_handle)
         def fake_send_handle(conn, handle, pid):
+            writes.append((pipes.index(conn), 'handle', tuple(held)))
+            pid_of.append((pipes.index(conn), pid))
             conn.q.append(('handle', handle))
         status, served = 0, [[] for _ in range(nw)]
         conns = []
@@ -431,7 +453,8 @@ def run_dispatch(case):
                     except Exception as e:
                         status = 1000 + C.exn_code(e)
                         break
-        return dict(status=status, served=served, not_closed=not_closed)
+        return dict(status=status, served=served, not_closed=not_closed, writes=[list(w[:2]) + [list(w[2])] for w in writes],
+                    pid_of=[list(x) for x in pid_of])
     finally:
         logging.disable(0)
 
@@ -461,6 +484,18 @@ def dispatch_oracle(case, out):
             out['status'], case['idd'], case['nw'], case['unix'])
     if out['not_closed']:
         return 'the acceptor kept descriptors %r after delegating them' % (out['not_closed'],)
+    # lock discipline of the two-message protocol (several acceptors share a worker's pipe): every message written to worker
+    # k's pipe is written while holding worker k's OWN lock (and no other), and the descriptor is addressed to worker k's
+    # pid - otherwise two acceptors can interleave 'address, address, descriptor, descriptor' and the worker's
+    # recv_handle() fails (Exec/DispatchFacts.v: mismatch_fails / Props C17_dispatch_*)
+    for k, kind, locks in out.get('writes', []):
+        if list(locks) != [k]:
+            return ('acceptor %d of %d workers wrote a %s message to the pipe of worker %d while holding the lock(s) %r instead of '
+                    'lock %d: dispatches of different acceptors to this worker are no longer mutually exclusive' % (
+                        case['idd'], case['nw'], kind, k, list(locks), k))
+    for k, pid in out.get('pid_of', []):
+        if pid != 100 + k:
+            return 'descriptor written to the pipe of worker %d was addressed to pid %d (worker %d)' % (k, pid, pid - 100)
     got = sorted(fd for w in out['served'] for fd, _ in w)
     if got != sorted(fd for _, fd in case['conns']):
         return 'accepted connections %r, served by the workers %r' % (sorted(fd for _, fd in case['conns']), got)
